@@ -89,6 +89,8 @@ def run(ctx):
     r10_3(ctx, handlers)
     r10_4(ctx, handlers)
     r10_5(ctx, handlers)
+    r10_7(ctx)
+    r10_8(ctx)
     # R10.6
     for f, c, table, multi in ds:
         b = f.built
@@ -315,3 +317,62 @@ def r10_5(ctx, handlers):
                     else:
                         ctx.undecided("R10.5", h, "%s.%s" % (s["rv"]["variant"], name), where, "provenance not recognised: %s" % fmt(src, 4))
     ctx.floor("R10.5", n, 6)
+
+
+def r10_7(ctx):
+    """constructors: the recorded source length starts as the length of the *given* vector, read before it is filtered."""
+    F = ctx.facts
+    n = 0
+    for f in F.find(crate=UT, name="new"):
+        if not re.match(r"vector::filter::(Filter|FilterMap)::<", f.path) or not f.built:
+            continue
+        b = f.built
+        for loc, s in b.iter_stmts():
+            if not (s["k"] == "assign" and s["rv"]["k"] == "agg" and s["rv"].get("adt") == "vector::filter::FilterImpl"):
+                continue
+            n += 1
+            e = b.expr_of_op(s["rv"]["ops"][s["rv"]["fields"].index("original_len")])
+            x = strip(e, through_calls=False)
+            where = b.line_at(loc)
+            if not (x[0] == "call" and ecall_matches(x, r"::len$")):
+                ctx.undecided("R10.7", f, "initial-source-length", where, "original_len = %s" % fmt(e, 4))
+                continue
+            recv = strip(x[3][0])
+            of_param = recv[0] == "param" and recv[1] == 1
+            # no in-place filtering of the parameter before the length is read
+            filt = [blk for blk, t in b.calls(r"::(retain|retain_mut|truncate|split_off|clear|remove|pop_front|pop_back)$") if strip(b.expr_of_op(t["args"][0]))[0] == "param" and strip(b.expr_of_op(t["args"][0]))[1] == 1]
+            early = any(b.dominates(fb, x[4][0]) for fb in filt)
+            ctx.verdict(of_param and not early, "R10.7", f, "initial-source-length", where, "original_len = values.len() of the given vector, read before filtering",
+                        "`%s` initialises the recorded source length with `%s`%s: it must be the length of the unfiltered source, otherwise every later length-dependent diff gets wrong source indices" % (
+                            f.path, fmt(e, 4), " after the vector was filtered in place" if early else ", which is not the given vector"))
+    ctx.floor("R10.7", n, 2)
+
+
+def r10_8(ctx):
+    """per-item closures that enumerate the source (a captured counter incremented by 1) count every item, on every path."""
+    F = ctx.facts
+    n = 0
+    for c in F.find(crate=UT):
+        if c.kind != "closure" or not c.path.startswith("vector::filter::") or not c.built:
+            continue
+        cb = c.built
+        incs = []
+        for loc, s in cb.iter_stmts():
+            if s["k"] != "assign":
+                continue
+            nm = last_field(s["place"])
+            if not nm or not s["place"]["proj"] or s["place"]["l"] != 1:
+                continue
+            e = cb.expr_of_rv(s["rv"], 8, ())
+            adds = find_all(e, lambda y: y[0] == "bin" and y[1].startswith("Add"))
+            if adds and is_const_int(adds[0][3], 1) and contains(adds[0][2], lambda y: y[0] == "field" and y[2] == nm.lstrip("*&").split(".")[-1]):
+                incs.append((loc, nm))
+        if not incs:
+            continue
+        n += 1
+        blks = [loc[0] for loc, _ in incs]
+        ok = cb.post_dominated_by(0, blks)
+        ctx.verdict(ok, "R10.8", root_fn(F, c), "counter-counts-every-item:%s" % incs[0][1].lstrip("*&").split(".")[-1], cb.line_at(incs[0][0]),
+                    "the source-index counter `%s` is incremented on every path of the per-item closure" % incs[0][1],
+                    "the per-item closure `%s` can return without incrementing the source-index counter `%s` (e.g. an early return for rejected items): every kept item after a rejected one is remembered at too small a source index" % (c.path, incs[0][1]))
+    ctx.floor("R10.8", n, 3)
